@@ -195,24 +195,48 @@ func (c *Ctx) handlerOperandUses(t *opcodeTables, cc *ast.CaseClause) ([]handler
 			return
 		case *ast.IfStmt:
 			walk(x.Init, isX, notSmall)
-			tested := ""
-			if call, ok := ast.Unparen(x.Cond).(*ast.CallExpr); ok {
-				if sel, ok := call.Fun.(*ast.SelectorExpr); ok && strings.HasPrefix(sel.Sel.Name, "Is") {
-					if id, ok := ast.Unparen(sel.X).(*ast.Ident); ok && operands[info.Uses[id]] {
-						tested = strings.TrimPrefix(sel.Sel.Name, "Is")
+			// IsX tests of operands: a single test, or the conjuncts of `a && b`
+			var conj []ast.Expr
+			var flatten func(e ast.Expr)
+			flatten = func(e ast.Expr) {
+				e = ast.Unparen(e)
+				if be, ok := e.(*ast.BinaryExpr); ok && be.Op == token.LAND {
+					flatten(be.X)
+					flatten(be.Y)
+					return
+				}
+				conj = append(conj, e)
+			}
+			flatten(x.Cond)
+			var testedKinds []string
+			for _, e := range conj {
+				if call, ok := e.(*ast.CallExpr); ok {
+					if sel, ok := call.Fun.(*ast.SelectorExpr); ok && strings.HasPrefix(sel.Sel.Name, "Is") {
+						if id, ok := ast.Unparen(sel.X).(*ast.Ident); ok && operands[info.Uses[id]] {
+							testedKinds = append(testedKinds, id.Name+"."+strings.TrimPrefix(sel.Sel.Name, "Is"))
+						}
 					}
 				}
 			}
-			if tested != "" {
+			if len(testedKinds) > 0 {
 				m := map[string]bool{}
 				for k := range isX {
 					m[k] = true
 				}
-				m[tested] = true
+				for _, k := range testedKinds {
+					m[k] = true
+				}
+				for _, e := range conj {
+					walk(e, isX, notSmall)
+				}
 				walk(x.Body, m, notSmall)
-				ex := map[string]bool{tested: true}
+				ex := map[string]bool{}
 				for k := range notSmall {
 					ex[k] = true
+				}
+				if len(conj) == 1 {
+					// only the failure of a single test excludes its kind
+					ex[testedKinds[0][strings.Index(testedKinds[0], ".")+1:]] = true
 				}
 				walk(x.Else, isX, ex)
 			} else {
@@ -236,7 +260,7 @@ func (c *Ctx) handlerOperandUses(t *opcodeTables, cc *ast.CaseClause) ([]handler
 					name := sel.Sel.Name
 					if name != "AsReference" && name != "MustReference" {
 						kind := strings.TrimPrefix(strings.TrimPrefix(name, "As"), "Must")
-						uses = append(uses, handlerUse{name, isX[kind] || strings.HasPrefix(name, "Must"), notSmall, x.Pos()})
+						uses = append(uses, handlerUse{name, isX[id.Name+"."+kind] || strings.HasPrefix(name, "Must"), notSmall, x.Pos()})
 					}
 				}
 			}
